@@ -124,6 +124,13 @@ func genSelector(c *Ctx) {
 			emit("sel/slice2", ".["+a+"][]["+b+"]?", wrap)
 		}
 	}
+	// numerals with leading zeros or signs in bounds and indexes, on containers long enough to tell 8 from 10
+	long := []datamodel.Node{J(`[0,1,2,3,4,5,6,7,8,9,10,11,12,13,14,15,16,17]`), J(`"abcdefghijklmnopqr"`)}
+	for _, f := range []string{"010", "007", "-011", "+5", "00", "-0", "012", "-010"} {
+		for _, t := range []string{".[" + f + "]", ".[" + f + ":]", ".[:" + f + "]", ".[" + f + ":" + f + "]", ".[1:" + f + "]?"} {
+			emit("sel/numerals", t, long)
+		}
+	}
 	_ = math.MaxInt
 	// random longer selectors
 	n := 3000
